@@ -73,7 +73,8 @@ Definition parse_bool (s : list ascii) : bool :=
   existsb (cs_eqb s) (map chars ["1"; "t"; "T"; "TRUE"; "true"; "True"]%string).
 
 (* ------------------------------------------------------------------ *)
-Inductive gtype := GTime | GBool | GOther.
+(* GNum: Int / Uint / Float fields, with fmt.Sprint of the parsed default (DefaultValueInterface) if any *)
+Inductive gtype := GTime | GBool | GNum (parsed : option string) | GOther.
 
 Record field := mk_field {
   f_name : string;
@@ -145,6 +146,14 @@ Definition migrate_column (f : field) (r : reported) : decision :=
       match f_gtype f with
       | GTime => if negb (equal_fold (trim_parens dv) (trim_parens (chars (f_default f)))) then true else alter
       | GBool => negb (Bool.eqb (parse_bool dv) (parse_bool (chars (f_default f))))
+      | GNum p =>
+          (* the column is created from the parsed default: equal to the tag text OR to the parsed
+             value needs no change *)
+          let a := negb (cs_eqb dv (chars (f_default f))) in
+          match p with
+          | Some s => a && negb (cs_eqb dv (chars s))
+          | None => a
+          end
       | GOther => negb (cs_eqb dv (chars (f_default f)))
       end
     else alter in
